@@ -6,8 +6,11 @@ Open Scope N_scope.
 
 Definition b32_window : nat := 89.
 
-(* 3.7 million look-ups, evaluated by the kernel's VM when this Qed is checked (about 25 s).
-   It is false for 90 (a weight-4 codeword spans 90 positions), so 89 is tight. *)
-Lemma b32_certificate : certificate b32_gens bech32_pm_shift bech32_pm_symbits b32_window = true.
+(* the symbol field of Bech32: GF(32) = GF(2)[x]/(x^5 + x^3 + 1); only used through the checks inside the certificate *)
+Definition b32_mul : N -> N -> N := gf_mul 41 5.
+
+(* about 0.3 million look-ups (after normalising by symbol scaling), evaluated by the kernel when this Qed is
+   checked (about 5 s in the VM).  It is false for 90 (a weight-4 codeword spans 90 positions): 89 is tight. *)
+Lemma b32_certificate : certificate b32_gens bech32_pm_shift bech32_pm_symbits b32_mul b32_window = true.
 Proof. vm_cast_no_check (eq_refl true). Qed.
 
